@@ -17,7 +17,7 @@ CRC=$?
 cat "$CTL.log"
 RC=0
 # (A GOARCH=386 pass was planned; the module does not type-check on 32-bit targets — untyped constants overflow int in
-# internal/basicchain, pkg/rpcclient/rolemgmt, pkg/services/rpcsrv, pkg/vm — so it cannot be loaded whole. See DESIGN.md §9.)
+# internal/basicchain, pkg/rpcclient/rolemgmt, pkg/services/rpcsrv, pkg/vm — so it cannot be loaded whole. See DESIGN.md §2.1.)
 "$BIN" -repo "$REPO" -property "$ID" -tier thorough -known "$VERIF_DIR/known_findings.json" -out "$VERIF_DIR/out" -evidence "$EV" -controls-json "$CTL" || RC=1
 # A missed or stale control says something about the checker, not about the property: it is recorded in the
 # evidence (coverage.negative_controls) and printed, but never raises a VIOLATION.
